@@ -388,7 +388,23 @@ def oracleExpect (c : CaseIn) (chunks : List Bytes) (rkv : KV) : Option String :
             if g = want then none else some (c.camp ++ ":CopyInResponse-formats:got=" ++ g ++ ":want=" ++ want)
           | none => some (c.camp ++ ":CopyInResponse-malformed")
         | [] => some (c.camp ++ ":CopyInResponse-malformed")
+  -- `xrow`: the fields of the first DataRow, byte for byte (NULL rendered `~`)
+  let chkRow : Option String := match c.kv.lookup "xrow" with
+    | none => none
+    | some want =>
+      match frames.find? (·.1 = ch 'D') with
+      | none => some (c.camp ++ ":xrow:no-DataRow")
+      | some (_, b) =>
+        match rd16 b with
+        | some (n, r) =>
+          (match parseFields n r with
+           | some fs =>
+             let g := ",".intercalate (fs.map fun f => match f with | some v => hexOf v | none => "~")
+             if g = want then none else some ("C09:" ++ c.camp ++ ":xrow:got=" ++ g ++ ":want=" ++ want)
+           | none => some (c.camp ++ ":xrow:malformed-DataRow"))
+        | none => some (c.camp ++ ":xrow:malformed-DataRow")
   (chk "xp" afterZ).orElse fun _ =>
+  chkRow.orElse fun _ =>
   chkG.orElse fun _ =>
   chkTail.orElse fun _ =>
   chkNE.orElse fun _ =>
